@@ -116,6 +116,9 @@ func (m *Matcher) Loop() {
 				prevCount = count
 				m.mergerCache = make(map[string]*Merger)
 			}
+		} else {
+			// The cache was emptied: what it will hold is for this many items
+			prevCount = count
 		}
 
 		if merger == nil {
